@@ -154,7 +154,13 @@ func genInject(rng *vh.Rng, class string, sc *Scen, thorough bool) (Round, bool)
 		if !hasRemote {
 			return rd, false
 		}
-		in.Kind = rng.PickS("drop", "drop", "stop-prs")
+		in.Kind = rng.PickS("drop", "stop-prs", "stop-pool", "stop-pool")
+		if in.Kind == "stop-pool" {
+			in.PoolSel = 0
+			if hasRelay && rng.Bool() {
+				in.PoolSel = 1 + rng.Intn(len(sc.Relays))
+			}
+		}
 		in.Side = rng.PickS("client", "server", "both")
 		in.Rst = rng.Bool()
 		rd.Reader, rd.LazyAfter = "lazy", rng.Intn(4)
@@ -187,8 +193,8 @@ func genInject(rng *vh.Rng, class string, sc *Scen, thorough bool) (Round, bool)
 	if in.Kind != "release" {
 		rd.Targeted = genTargeted(rng, rng.Intn(3), 1000)
 	}
-	if in.Kind != "remove" && rng.Chance(1, 4) {
-		rd.End = "supersede"
+	if in.Kind != "remove" && rd.Reader != "lazy" && rng.Chance(1, 4) {
+		rd.End = "supersede" // (a waiter that stops reading always removes its task, as the miner does)
 	}
 	return rd, true
 }
